@@ -138,6 +138,11 @@ def jacobi_svd_contract(eng, scalar="d", symmetric_psd=False, pre=None, post=Non
         _alloc_matrix(eng, st, this, rows, k, U, ty)
         _alloc_matrix(eng, st, this + 24, cols, k, V, ty)
         _alloc_matrix(eng, st, this + 48, k, 1, [[s] for s in S], ty, vector=True)
+        if symmetric_psd:
+            # symmetric positive semi-definite input: the SVD is an eigen-decomposition, U diag(s) U^T = M
+            for r in range(rows):
+                for c2 in range(cols):
+                    st.assume(sum((U[r][i].e * S[i].e * U[c2][i].e for i in range(k)), RV(0)) == _term(eng, M[r][c2]))
         st.user.setdefault("svd", []).append(dict(U=U, V=V, S=S, M=M))
         if post is not None:
             post(eng, st, U, V, S, M)
